@@ -144,7 +144,69 @@ def mk_stubs():
     def st_strlen(ex, s):
         st = get_str(ex, s).norm()
         if st.is_concrete(): return len(st.text())
-        return ex.fresh('strlen', 16)
+        v = ex.fresh('strlen', 16)
+        ex.user.setdefault('strlen_of', {})[v.get_id()] = st.copy()       # remembered so that length arithmetic can be interpreted structurally
+        return v
+    def _len_parts(ex, n, src):
+        """the prefix of abstract string `src` that has length n, when n is concrete and falls inside a literal prefix, or n is
+        strlen(src) - strlen(t) for a remembered abstract suffix t of src"""
+        if isinstance(n, int) or z3.is_int_value(n):
+            nv = n if isinstance(n, int) else n.as_long()
+            first = src.parts[0] if src.parts else ''
+            if src.is_concrete(): return SymStr([src.text()[:nv]]), nv >= len(src.text())
+            if isinstance(first, str) and nv <= len(first): return SymStr([first[:nv]]), False
+            raise Inconclusive('strncpy: length reaches into a symbolic part')
+        reg = ex.user.get('strlen_of', {})
+        def known(t):
+            if isinstance(t, int): return SymStr(['x' * t]) if False else None
+            return reg.get(t.get_id())
+        if z3.is_app(n) and n.decl().kind() == z3.Z3_OP_ITE and z3.is_app(n.arg(1)) and n.arg(1).decl().kind() == z3.Z3_OP_SUB:
+            n = n.arg(1)          # wrap-aware unsigned subtraction: the no-wrap branch (the suffix relation below implies a >= b)
+        if z3.is_app(n) and n.decl().kind() == z3.Z3_OP_SUB and len(n.children()) == 2:
+            a, b = n.children()
+            sa = known(a); sb = known(b) if not z3.is_int_value(b) else None
+            if sa is not None and strid(sa.copy().norm()) == strid(src.copy().norm()):
+                pa = sa.copy().norm().parts
+                if z3.is_int_value(b):
+                    k = b.as_long(); last = pa[-1] if pa else ''
+                    if isinstance(last, str) and k <= len(last): return SymStr(pa[:-1] + [last[:len(last) - k]]), False
+                elif sb is not None:
+                    pb = sb.copy().norm().parts
+                    # sb must be a (part-wise) suffix of sa; the first part of sb may be the tail of a literal part of sa
+                    if len(pb) <= len(pa):
+                        tail = pa[len(pa) - len(pb):]
+                        if tail[1:] == pb[1:] and isinstance(tail[0], str) and isinstance(pb[0], str) and tail[0].endswith(pb[0]):
+                            return SymStr(pa[:len(pa) - len(pb)] + [tail[0][:len(tail[0]) - len(pb[0])]]), False
+                        if tail == pb: return SymStr(pa[:len(pa) - len(pb)]), False
+        raise Inconclusive('strncpy: length term not interpretable: ' + (n.sexpr()[:200] if hasattr(n, 'sexpr') else repr(n)))
+    def st_strncpy(ex, d, s_, n):
+        src = get_str(ex, s_).norm()
+        pre, whole = _len_parts(ex, n, src)
+        # C semantics: no terminator is added when the source is longer than n; the destination buffers of the writer are zero
+        # initialised (char x[BIG] = ""), which the abstract domain represents as the empty string, so the prefix is the result
+        set_str(ex, d, pre); return d
+    def st_strncat(ex, d, s_, n):
+        a = get_str(ex, d); src = get_str(ex, s_).norm()
+        pre, whole = _len_parts(ex, n, src)
+        a.parts += pre.parts; set_str(ex, d, a); return d
+    def st_strrchr(ex, h, c):
+        hs = get_str(ex, h).norm()
+        cv = c if isinstance(c, int) else (c.as_long() if z3.is_int_value(c) else None)
+        if cv is None: raise Inconclusive('strrchr with symbolic character')
+        ch_ = chr(cv & 0xff)
+        if hs.is_concrete():
+            i = hs.text().rfind(ch_)
+            return NULL if i < 0 else Ptr(h.region, tuple(h.path[:-1]) + ((h.path[-1] if isinstance(h.path[-1], int) else 0) + i,))
+        raise Inconclusive('strrchr on a string with symbolic parts')
+    def st_strchr(ex, h, c):
+        hs = get_str(ex, h).norm()
+        cv = c if isinstance(c, int) else (c.as_long() if z3.is_int_value(c) else None)
+        if cv is None: raise Inconclusive('strchr with symbolic character')
+        ch_ = chr(cv & 0xff); first = hs.parts[0] if hs.parts else ''
+        if isinstance(first, str) and ch_ in first:
+            return Ptr(h.region, tuple(h.path[:-1]) + ((h.path[-1] if isinstance(h.path[-1], int) else 0) + first.index(ch_),))
+        if hs.is_concrete(): return NULL
+        raise Inconclusive('strchr: character not in the literal prefix')
     def st_strcmp(ex, a, b):
         eq = str_eq(get_str(ex, a), get_str(ex, b))
         if isinstance(eq, bool): return 0 if eq else 1
@@ -174,7 +236,8 @@ def mk_stubs():
                         a = ex.signed(a, 32)
                     parts.append(('d', a, conv + width))
         set_str(ex, buf, SymStr(parts)); return 0
-    S.update({'@strcpy': st_strcpy, '@strcat': st_strcat, '@strlen': st_strlen, '@strcmp': st_strcmp, '@strstr': st_strstr,
+    S.update({'@strncpy': st_strncpy, '@strncat': st_strncat, '@strrchr': st_strrchr, '@strchr': st_strchr,
+              '@strcpy': st_strcpy, '@strcat': st_strcat, '@strlen': st_strlen, '@strcmp': st_strcmp, '@strstr': st_strstr,
               '@snprintf': st_snprintf})
 
     def st_memset(ex, p, val, n, vol=None):
